@@ -320,7 +320,7 @@ def run(ctx):
     # ---- 2. conformance --------------------------------------------------------------------
     d = ctx.subdir("traces")
     out_r = os.path.join(d, "random.ndjson")
-    run_driver(ctx, tb, out_r, {"VERIF_N": ctx.pick(100, 2000), "VERIF_LEN": ctx.pick(20, 24)})
+    run_driver(ctx, tb, out_r, {"VERIF_N": ctx.pick(100, 1200), "VERIF_LEN": ctx.pick(20, 24)})
     sp = os.path.join(d, "tlc_script.ndjson")
     common.write_ndjson(sp, script)
     out_s = os.path.join(d, "replayed.ndjson")
